@@ -490,6 +490,83 @@ def scenario_header_cache_race(res, seed, variant):
     return fails, h
 
 
+def scenario_tx_cache_race(res, seed, variant):
+    """Corpus scenario: a transaction-merkle request for a block of >= 200 transactions (the
+    MerkleCache path of `_merkle_branch`) whose tx-hash read from the DB is in flight while a
+    reorganisation replaces that block by another block of >= 200 transactions; judged like every
+    history (every proof of every block must verify against the current chain at quiescence: the
+    by-height caches must not hold anything of the orphaned block)."""
+    h = History(res, seed, 20_000 + variant, 'quick', {'proofs'}, limit=8)
+    w, d = h.world, h.daemon
+    fails = []
+    try:
+        w.build()
+        w.start()
+        w.run_until(lambda: w.serving)
+        while d.tip.height < 6:
+            d.extend(1)
+        big = h.gen.new_block(d.tip, max_txs=215, min_txs=205)
+        d.switch(big)
+        d.extend(2, max_txs=2)
+        for _ in range(8):
+            w.settle(2)
+            if w.quiescent():
+                break
+        s = w.new_session()
+        wrap_transport(s, w)
+        bh = big.height
+        h.log(f'block {bh} has {len(big.txs)} txs')
+        if variant == 0:
+            h.client(0, 'blockchain.transaction.id_from_pos', [bh, 7, True], ('q',))
+        else:
+            from electrumx.lib.hash import hash_to_hex_str as hx
+            h.client(0, 'blockchain.transaction.get_merkle', [hx(big.txs[9].txid), bh], ('q',))
+        held = []
+        prev_hook = w.loop.on_iteration
+
+        def hook(loop):
+            prev_hook(loop)
+            for j in loop.pending_jobs():
+                if 'tx_hashes' in j.name and not getattr(j, '_seen_by_hook', False):
+                    j._seen_by_hook = True
+                    if not held:
+                        held.append(j)
+                        j.step()                   # the read sees the old block ...
+                        w.sched.hold.add(id(j))    # ... and its completion is delayed
+        w.loop.on_iteration = hook
+        for _ in range(400):
+            w.run(asyncio.sleep(0))
+            if held:
+                break
+        w.loop.on_iteration = prev_hook
+        if not held:
+            return [('harness', 'no tx-hash read was submitted by the merkle request')], h
+        job = held[0]
+        b = d.tip.chain()[bh - 1]
+        b = h.gen.new_block(b, max_txs=215, min_txs=205)
+        for _ in range(3):
+            b = h.gen.new_block(b, max_txs=2)
+        d.switch(b)
+        h.log(f'daemon reorg depth 3 -> height {b.height}: block {bh} replaced by another block of '
+              f'{len(b.chain()[bh].txs)} txs while the tx-hash read of the old one is in flight')
+        for _ in range(8):
+            w.settle(2)
+            if w.quiescent():
+                break
+        w.sched.hold.discard(id(job))
+        w.settle(2)
+        res.bump('tx_cache_race_scenarios')
+        h.judge('tx-cache-race')
+        fails = h.fails
+    finally:
+        try:
+            w.stop()
+        except Exception as e:   # noqa
+            fails.append(('harness', f'stop failed: {e!r}'))
+        w.destroy()
+    return fails, h
+
+
 def _run(tier, seed, want, name):
     res = SuiteResult(name)
     res.rule = ('case = one history: simulated daemon (blocks, natural reorgs, admin-forced reorgs incl. ones ending at the '
@@ -502,17 +579,18 @@ def _run(tier, seed, want, name):
     if 'limits' in want:
         n = {'quick': 150, 'thorough': 1500}[tier]
     if 'proofs' in want:
-        for variant in (0, 1):
-            fails, h = scenario_header_cache_race(res, seed, variant)
-            res.note_case(f'header-cache-race {variant}', True)
-            for f in fails:
-                if f[0] == 'harness':
-                    res.harness_errors.append(f'header-cache-race {variant}: {f[1]}')
-            real = [f for f in fails if f[0] != 'harness']
-            if real:
-                res.violations.append({'suite': name, 'clause': real[0][0], 'detail': real[0][1], 'seed': seed,
-                                       'scenario': ['header_cache_race', variant], 'events': h.events[-20:],
-                                       'all_failures': [f'{c}: {d}' for c, d in real[:6]]})
+        for scen, fn in (('header_cache_race', scenario_header_cache_race), ('tx_cache_race', scenario_tx_cache_race)):
+            for variant in (0, 1):
+                fails, h = fn(res, seed, variant)
+                res.note_case(f'{scen} {variant}', True)
+                for f in fails:
+                    if f[0] == 'harness':
+                        res.harness_errors.append(f'{scen} {variant}: {f[1]}')
+                real = [f for f in fails if f[0] != 'harness']
+                if real:
+                    res.violations.append({'suite': name, 'clause': real[0][0], 'detail': real[0][1], 'seed': seed,
+                                           'scenario': [scen, variant], 'events': h.events[-20:],
+                                           'all_failures': [f'{c}: {d}' for c, d in real[:6]]})
     for idx in range(n):
         h = History(res, seed, idx, tier, want)
         fails = h.run()
@@ -553,7 +631,8 @@ def replay(case):
     want = set(case['want']) if case.get('want') else {'converge', 'queries', 'proofs'}
     res = SuiteResult('system')
     if case.get('scenario'):
-        fails, _h = scenario_header_cache_race(res, case['seed'], case['scenario'][1])
+        fn = {'header_cache_race': scenario_header_cache_race, 'tx_cache_race': scenario_tx_cache_race}[case['scenario'][0]]
+        fails, _h = fn(res, case['seed'], case['scenario'][1])
         return [f'{c}: {d}' for c, d in fails if c != 'harness']
     h = History(res, case['seed'], case['history'], 'quick', want)
     return [f'{c}: {d}' for c, d in h.run() if c != 'harness']
